@@ -6,8 +6,8 @@
  * Plus: missing file -> ECONF_NOFILE; the 25 codes map to the frozen message table. */
 #include "convgen.h"
 
-static const char *BADLINE[4] = { "[abc", "[abc] x", "[]", "key text" };
-static const econf_err BADCODE[4] = { ECONF_MISSING_BRACKET, ECONF_TEXT_AFTER_SECTION, ECONF_EMPTY_SECTION_NAME, ECONF_MISSING_DELIMITER };
+static const char *BADLINE[5] = { "[abc", "[abc] x", "[]", "key text", "my key=v" };   /* the last one: a key, text, and only then a delimiter - the delimiter must FOLLOW the key */
+static const econf_err BADCODE[5] = { ECONF_MISSING_BRACKET, ECONF_TEXT_AFTER_SECTION, ECONF_EMPTY_SECTION_NAME, ECONF_MISSING_DELIMITER, ECONF_MISSING_DELIMITER };
 static const char *MESSAGES[25] = {
   "Success", "Unknown error", "Out of memory", "Configuration file not found", "Group not found", "Key not found",
   "Key is NULL or has empty value", "Error creating or writing to a file", "Parse error", "Missing bracket", "Missing delimiter",
@@ -28,7 +28,7 @@ static void gen(void)
   cg_set_cfg(mc_tag);
   int n = mc_choose(Nmax + 1);
   cg_gen_file(n);
-  int nk = cg.cls == CLS_NONBLANK ? 4 : 3;
+  int nk = cg.cls == CLS_NONBLANK ? 5 : 3;
   kind = mc_choose(nk);
   pos = mc_choose(n + 1);
   second = mc_choose(nk);          /* == kind: no second malformed line */
@@ -43,16 +43,16 @@ static void exec(void)
 {
   sbuf f = {0}, sig = {0};
   /* "key text" directly after an entry or continuation line would itself be a continuation line: not malformed there */
-  if (kind == 3 && pos > 0 && (cg_l[pos - 1].kind == LK_ENTRY || cg_l[pos - 1].kind == LK_CONT)) { mc_st->skipped++; return; }
+  if (kind >= 3 && pos > 0 && (cg_l[pos - 1].kind == LK_ENTRY || cg_l[pos - 1].kind == LK_CONT)) { mc_st->skipped++; return; }
   for (int i = 0; i <= cg_n; i++) {
-    if (i == pos) { sb_puts(&f, LEAD[lead]); sb_puts(&f, BADLINE[kind]); sb_putc(&f, '\n'); }
+    if (i == pos) { sb_puts(&f, LEAD[lead]); if (kind == 4) sb_printf(&f, "my key%cv", cg.dn); else sb_puts(&f, BADLINE[kind]); sb_putc(&f, '\n'); }
     if (i < cg_n) { sb_puts(&f, cg_l[i].text); sb_putc(&f, '\n'); }
   }
-  if (second != kind) { sb_puts(&f, "\n"); sb_puts(&f, BADLINE[second]); sb_putc(&f, '\n'); }
+  if (second != kind) { sb_puts(&f, "\n"); if (second == 4) sb_printf(&f, "my key%cv", cg.dn); else sb_puts(&f, BADLINE[second]); sb_putc(&f, '\n'); }
   if (nofinalnl && f.len && f.s[f.len - 1] == '\n') { f.len--; f.s[f.len] = 0; }
   static const char *EN[8] = { "single file", "main file of a layered read", "1st drop-in", "2nd drop-in", "3rd drop-in",
                                "main file, econf_readConfig with JOIN_SAME_ENTRIES=1", "2nd drop-in, econf_readConfig with JOIN_SAME_ENTRIES=1", "main file, econf_readConfig with PYTHON_STYLE=1" };
-  if (embed == 7 && kind == 3) { mc_st->skipped++; sb_free(&f); sb_free(&sig); return; }   /* indentation rules differ under PYTHON_STYLE: header kinds only */
+  if (embed == 7 && kind >= 3) { mc_st->skipped++; sb_free(&f); sb_free(&sig); return; }   /* indentation rules differ under PYTHON_STYLE: header kinds only */
   sb_puts(&sig, "file=\""); sb_put_esc(&sig, f.s, f.len); sb_printf(&sig, "\" malformed-line=%d as=%s delim=\"", pos + 1, EN[embed]); sb_put_escs(&sig, cg.D);
   sb_puts(&sig, "\" comment=\""); sb_put_escs(&sig, cg.C); sb_puts(&sig, "\"");
   snprintf(mc_case_sig, sizeof mc_case_sig, "%s", sig.s);
